@@ -694,7 +694,6 @@ err_out_timer:
 				return (errno);
 			}
 			TPDATA_TFD_SET(tp_udata->tpdata, tfd);
-			TPDATA_EV_FL_SET(tp_udata->tpdata, ev->event, ev->flags); /* Remember original event and flags. */
 			/* Add to epoll. */
 			epev.events |= EPOLLIN; /* Not set EPOLLONESHOT, use timer control. */
 			if (0 != epoll_ctl((int)tp_udata->tpt->io_fd,
@@ -705,6 +704,8 @@ err_out_timer:
 		}
 
 		tp_udata->tpdata &= ~TPDATA_F_DISABLED;
+		/* Remember event and flags, also on re-enable with other flags. */
+		TPDATA_EV_FL_SET(tp_udata->tpdata, ev->event, ev->flags);
 		switch ((TP_FF_T_TM_MASK & ev->fflags)) {
 		case TP_FF_T_SEC:
 			new_tmr.it_value.tv_sec = (time_t)ev->data;
